@@ -8,3 +8,9 @@ package leveldb
 func verifYield(p int) {}
 
 func verifEvent(k int, a, b uint64) {}
+
+func verifJobBegin() {}
+
+func verifJobEnd() {}
+
+func verifCommitted(s *session, r *sessionRecord, nv *version, trivial bool) {}
